@@ -476,6 +476,23 @@ def _check_masked_plot(ck: Checker, f, flag: str, mask: str, what: str, rows, x:
                      f"{leaving[0].lineno}: the members after that one are not drawn", loc=f.loc(leaving[0]))
     else:
         ck.ok("C20.R3", f.qualname, f"{what}: every member is visited", nontrivial=False)
+    # a guard around the drawing call may only skip an empty selection: one line / marker per selected window
+    g = parent_of(pst)
+    child = pst
+    while g is not None and g is not member:
+        if isinstance(g, ast.If):
+            in_body = any(y is child for y in g.body)
+            verdict = _only_skips_empty(g.test) if in_body else None
+            if verdict is True:
+                ck.ok("C20.R3", f.qualname, f"{what}: the guard only skips an empty selection", nontrivial=False)
+            elif verdict is False:
+                ck.violation("C20.R3", f.qualname, f"{what}: guard",
+                             f"`if {unparse(g.test)}` skips the drawing for a member whose selection is not empty: a member with a single selected window "
+                             f"gets no line / marker", loc=f.loc(g))
+            else:
+                raise AnalysisError(f"{f.qualname}: the guard `{norm_key(g.test, 60)}` around the drawing call is not recognised")
+        child = g
+        g = parent_of(g)
     if not reaching(f).only_param(flag, pst):
         ck.violation("C20.R3", f.qualname, key, f"`{flag}` is rebound before the selection", loc=f.loc(pst))
         return
@@ -513,6 +530,34 @@ def _check_masked_plot(ck: Checker, f, flag: str, mask: str, what: str, rows, x:
         ck.violation("C20.R3", f.qualname, key, "; ".join(problems), loc=f.loc(p))
     else:
         ck.ok("C20.R3", f.qualname, key, detail=f"per member `{H}`: rows {list(rows)} selected by {H}.{mask} / its complement")
+
+
+def _only_skips_empty(test: ast.AST) -> Optional[bool]:
+    """True: the test holds for every non-empty selection; False: it fails for some non-empty selection; None: not recognised."""
+    def count(e) -> bool:
+        return (isinstance(e, ast.Call) and call_name(e) in ("len", "count_nonzero", "sum") and len(e.args) == 1) \
+            or (isinstance(e, ast.Attribute) and e.attr == "size")
+    if count(test):
+        return True
+    if isinstance(test, ast.Call) and call_name(test) == "any" and len(test.args) <= 1:
+        return True
+    if isinstance(test, ast.Compare) and len(test.ops) == 1:
+        l, op, r = test.left, test.ops[0], test.comparators[0]
+        if count(r) and isinstance(l, ast.Constant):
+            flip = {ast.Lt: ast.Gt, ast.LtE: ast.GtE, ast.Gt: ast.Lt, ast.GtE: ast.LtE, ast.NotEq: ast.NotEq, ast.Eq: ast.Eq}
+            if type(op) not in flip:
+                return None
+            l, op, r = r, flip[type(op)](), l
+        if count(l) and isinstance(r, ast.Constant) and isinstance(r.value, int) and not isinstance(r.value, bool):
+            k = r.value
+            if isinstance(op, ast.Gt):
+                return k <= 0
+            if isinstance(op, ast.GtE):
+                return k <= 1
+            if isinstance(op, ast.NotEq):
+                return k == 0
+            return False if isinstance(op, (ast.Lt, ast.LtE, ast.Eq)) else None
+    return None
 
 
 _PROG = [None]
